@@ -72,8 +72,19 @@ def trivial(x):
     return ('t', x)
 
 
+def _busy(spec) -> None:
+    """A long non-yielding step (numerical kernel): the worker's main
+    thread is occupied for `busy` simulated seconds."""
+    d = spec.get('busy')
+    sim = SIM[0]
+    if d and sim is not None:
+        sim.count('probe.busy_step')
+        sim.sleep(d)
+
+
 def sync_node(spec):
     rec('start', spec['id'], _wid())
+    _busy(spec)
     if spec.get('raise'):
         rec('raise', spec['id'], spec['raise'])
         raise ValueError(spec['raise'])
@@ -92,6 +103,7 @@ def node_value(spec, obs):
 
 async def run_node(spec):
     rec('start', spec['id'], _wid())
+    _busy(spec)
     if spec.get('raise'):
         rec('raise', spec['id'], spec['raise'])
         raise ValueError(spec['raise'])
